@@ -37,12 +37,13 @@ Frame(k, s, node, e, fn, poison) ==
   [k |-> k, s |-> s, node |-> node, e |-> e, fn |-> fn, ran |-> FALSE, hook |-> "none", poison |-> poison,
    ret |-> "none"]
 
-CInit(sandboxes, hooks, longfits) ==
+CInit(sandboxes, hooks, longfits, libs) ==
   [entry  |-> [s \in sandboxes |-> [x \in {} |-> ""]],
    stack  |-> <<>>,
    closed |-> [s \in sandboxes |-> <<>>],   \* completed crossings per sandbox (timing is per sandbox)
    unw    |-> FALSE,
    tstate |-> [s \in sandboxes |-> s],   \* current per-sandbox transition state (a label)
+   libs   |-> libs,         \* library each sandbox instance was created from (0 = not tracked)
    hooks  |-> hooks,        \* are transition hooks compiled in?
    fits   |-> longfits]     \* does a 2^40 "poison" value fit the sandbox ABI's long?
 
@@ -85,6 +86,8 @@ Allowed(st, ev) ==
             /\ ~f.ran /\ HookOpen(st, f) /\ ev.node = f.node
             /\ ~(f.poison /\ ~st.fits)            \* an unrepresentable argument never arrives
             /\ (DispatchOn => ev.cur = f.s)       \* the executing sandbox is this one
+            /\ ((DispatchOn /\ "lib" \in DOMAIN ev /\ st.libs[f.s] # 0) => ev.lib = st.libs[f.s])
+                                                  \* ... running the function of ITS library (C11)
             /\ ev.argok                           \* arguments arrived with their values
     [] ev.e = "setstate" ->
          \* the application changes the transition state of a sandbox (from a callback body)
